@@ -331,7 +331,7 @@ func randScript(c *Cfg, users []string) string {
 	// at least half of the failing scripts write before failing
 	switch c.Rng.Intn(6) {
 	case 0:
-		st = append(st, "fail")
+		st = append(st, []string{"fail", "fail", "failx"}[c.Rng.Intn(3)])
 	case 1:
 		st = append(st, "panic")
 	}
@@ -352,7 +352,7 @@ func genC04(c *Cfg, emit func([]string)) {
 	// sequence of 3 (thorough: 4) transactions over an alphabet of atomic bodies runs in ONE batch or
 	// task list, followed by a reader. This is where a cache layer that mishandles
 	// overwrite-then-delete, delete-then-put, failed writers or empty values shows.
-	alphabet := []string{"put:x:2", "put:x:", "del:x", "get:x", "put:x:3;fail", "del:x;get:x", "put:x:4;get:x", "del:x;panic"}
+	alphabet := []string{"put:x:2", "put:x:", "del:x", "get:x", "put:x:3;fail", "del:x;get:x", "put:x:4;get:x", "del:x;panic", "put:x:5;failx"}
 	depth := 3
 	if c.Thorough() {
 		depth = 4
